@@ -570,7 +570,7 @@ Plan gen_c12(uint64_t seed, uint64_t run, const std::string& cfg) {
         case 2: { o = mkop("f_addpath"); o.o = 0; o.i = {(int64_t)g.below(4), (int64_t)g.below(5)}; PPaths pp = P(); if (pp.empty()) pp.push_back(PPath()); setP(o, 0, pp); break; }
         case 3: o = mkop("clear"); o.o = 0; break;
         case 4: o = mkop(g.chance(0.5) ? "f_miter" : "f_arc"); o.o = 0; o.d = {g.chance(0.5) ? 2.0 : g.unit() * 3}; break;
-        case 5: o = mkop(g.chance(0.5) ? "pc" : "rs"); o.o = 0; o.i = {(int64_t)g.below(2)}; break;
+        case 5: if (z && g.chance(0.4)) { o = mkop("setz"); o.o = 0; o.i = {(int64_t)g.below(3)}; } else { o = mkop(g.chance(0.5) ? "pc" : "rs"); o.o = 0; o.i = {(int64_t)g.below(2)}; } break;
         case 6: o = mkop("f_setdcb"); o.o = 0; o.i = {(int64_t)g.below(4)}; o.d = {std::fabs(D()) + 1}; break;
         case 7: o = mkop("f_execcb"); o.o = 0; o.i = {(int64_t)g.below(3), (int64_t)g.below(2), 0}; o.d = {std::fabs(D()) + 1}; ++nexec; break;
         case 8: case 11: o = mkop("f_exec"); o.o = 0; o.d = {D()}; o.i = {0, (int64_t)g.below(2), 0}; ++nexec; break;
